@@ -36,8 +36,39 @@ fn read_exact_to(s: &mut TcpStream, n: usize) -> Result<Vec<u8>, String> {
 /// Complete a local handshake with the client. Returns the connected stream and the bytes the *target* must see
 /// before any payload (non-empty for plain HTTP only: the request head is forwarded untouched).
 pub fn app_connect(client_port: u16, hs: Hs, target_port: u16, tmo: Duration) -> Result<(TcpStream, Vec<u8>), String> {
-    let mut s = TcpStream::connect_timeout(&SocketAddr::V4(SocketAddrV4::new(Ipv4Addr::LOCALHOST, client_port)), tmo)
-        .map_err(|e| format!("connect to client port: {}", e))?;
+    app_connect_opt(client_port, hs, target_port, tmo, None)
+}
+
+/// A connected loopback socket whose receive buffer was set *before* connecting (so that the window it advertises is
+/// small from the first segment on): an application that reads slowly leaves the bytes in the sender's queue.
+fn connect_small_rcvbuf(port: u16, rcvbuf: u32) -> Result<TcpStream, String> {
+    use std::os::fd::FromRawFd;
+    unsafe {
+        let fd = libc::socket(libc::AF_INET, libc::SOCK_STREAM | libc::SOCK_CLOEXEC, 0);
+        if fd < 0 {
+            return Err(format!("socket: {}", std::io::Error::last_os_error()));
+        }
+        let v: libc::c_int = rcvbuf as libc::c_int;
+        libc::setsockopt(fd, libc::SOL_SOCKET, libc::SO_RCVBUF, &v as *const _ as *const libc::c_void, std::mem::size_of::<libc::c_int>() as libc::socklen_t);
+        let mut sa: libc::sockaddr_in = std::mem::zeroed();
+        sa.sin_family = libc::AF_INET as libc::sa_family_t;
+        sa.sin_port = port.to_be();
+        sa.sin_addr = libc::in_addr { s_addr: u32::from(Ipv4Addr::LOCALHOST).to_be() };
+        if libc::connect(fd, &sa as *const _ as *const libc::sockaddr, std::mem::size_of::<libc::sockaddr_in>() as libc::socklen_t) != 0 {
+            let e = std::io::Error::last_os_error();
+            libc::close(fd);
+            return Err(format!("connect: {}", e));
+        }
+        Ok(TcpStream::from_raw_fd(fd))
+    }
+}
+
+/// `app_connect`, optionally with a small receive buffer on the application's socket.
+pub fn app_connect_opt(client_port: u16, hs: Hs, target_port: u16, tmo: Duration, rcvbuf: Option<u32>) -> Result<(TcpStream, Vec<u8>), String> {
+    let mut s = match rcvbuf {
+        None => TcpStream::connect_timeout(&SocketAddr::V4(SocketAddrV4::new(Ipv4Addr::LOCALHOST, client_port)), tmo).map_err(|e| format!("connect to client port: {}", e))?,
+        Some(n) => connect_small_rcvbuf(client_port, n).map_err(|e| format!("connect to client port: {}", e))?,
+    };
     s.set_nodelay(true).ok();
     s.set_read_timeout(Some(tmo)).ok();
     s.set_write_timeout(Some(tmo)).ok();
